@@ -146,7 +146,7 @@ W_RE = re.compile(r"^-?[0-9]+\.[0-9]*(E[+-]?[0-9]+)?$")
 def main(tier, seed):
     res = Result(PID, tier, seed)
     try:
-        translate.run_all()
+        translate.run_all(PID)
     except translate.AnchorLost as e:
         res.violation("translator lost its anchor: %s" % e, {"theorem_or_correspondence": "tools/translate.py", "error": str(e)}, found_input=False)
     pr = coq_prove(PID)
